@@ -121,7 +121,13 @@ def write_md(results):
                 hows.append("%s: %s%s" % (p, ", ".join(how) or "violation", " (no-failing-input-found)" if c["no_failing_input_found"] else ""))
             else:
                 hows.append("%s: not detected" % p)
-        lines.append("| %s | %s | %s | %s | %s |" % (name, r["property"], r["summary"].replace("|", "\\|")[:220], "caught" if r["caught"] else "**missed**", "<br>".join(hows).replace("|", "\\|")))
+        verdict = "caught" if r["caught"] else "**missed**"
+        try:
+            if json.load(open(os.path.join(VERIF, "seeded", name, "meta.json"))).get("out_of_contract") and not r["caught"]:
+                verdict = "not reported: out of the documented contract (see meta.json)"
+        except Exception:
+            pass
+        lines.append("| %s | %s | %s | %s | %s |" % (name, r["property"], r["summary"].replace("|", "\\|")[:220], verdict, "<br>".join(hows).replace("|", "\\|")))
     if "SEEDED_RESULTS" in os.environ:
         open(os.environ["SEEDED_RESULTS"] + ".md", "w").write("\n".join(lines) + "\n")
         return
